@@ -307,12 +307,12 @@ UNIT = {
                     ("loop_body_start", 1, 'let ghost tp = schema.types@;'),
                     ("loop_body_end", 1, 'proof { let e = builtin_scalars.used_and_undefined.elems(); let nk = e[__j - 1].key(); assert forall|k: Seq<char>| among(e, __j as int, k) <==> (among(e, __j - 1, k) || k == nk) by { if among(e, __j as int, k) { let i = choose|i: int| 0 <= i < __j && #[trigger] e[i].key() == k; if i < __j - 1 { assert(among(e, __j - 1, k)); } } if among(e, __j - 1, k) { let i = choose|i: int| 0 <= i < __j - 1 && #[trigger] e[i].key() == k; assert(e[i].key() == k); assert(among(e, __j as int, k)); } if k == nk { assert(e[__j - 1].key() == k); assert(among(e, __j as int, k)); } } assert(schema.types@ =~= tp.insert(nk, ExtendedType::Scalar(builtin_scalars.all@[nk]))); }'),
                     ("before", "let mut __j: usize = 0;", 'let ghost t1 = schema.types@; proof { let all = builtin_scalars.all; let r = refs(&*old(schema)); let ud = builtin_scalars.used_and_defined@; let uu = builtin_scalars.used_and_undefined@; assert forall|k: Seq<char>| #![trigger t1.dom().contains(k)] (t1.dom().contains(k) <==> old(schema).types@.dom().contains(k) && !(spec_built_in(old(schema).types@[k]) && all@.dom().contains(k) && !r.contains(k))) && (t1.dom().contains(k) ==> t1[k] == old(schema).types@[k]) by { if old(schema).types@.dom().contains(k) { assert(old(schema).types.key_name(k).key() == k || true); if all@.dom().contains(k) { assert(ud.contains(k) == r.contains(k)); assert((ud + uu).contains(k) == r.contains(k)); } } } assert(after_removal(&*old(schema), all, t1)); }')]),
-        dict(file=SV, kind="fn", name="record_type_ref", container="BuiltInScalars", container_name="BuiltInScalars", wrap="impl BuiltInScalars", props=["C15"],
+        dict(file=SV, kind="fn", name="record_type_ref", container="BuiltInScalars", container_name="BuiltInScalars", wrap="impl BuiltInScalars", props=["C15", "C16"],
              clauses=[("ensures", "says_whether_it_is_a_built_in_scalar", "r == old(self).all@.dom().contains(name.key())"),
                       ("ensures", "used_and_defined_recorded", "final(self).used_and_defined@ == (if r && schema.types@.dom().contains(name.key()) { old(self).used_and_defined@.insert(name.key()) } else { old(self).used_and_defined@ })"),
                       ("ensures", "used_and_undefined_recorded", "final(self).used_and_undefined@ == (if r && !schema.types@.dom().contains(name.key()) { old(self).used_and_undefined@.insert(name.key()) } else { old(self).used_and_undefined@ })"),
                       ("ensures", "table_untouched", "final(self).all == old(self).all")]),
-        dict(file=SV, kind="fn", name="all_used", container="BuiltInScalars", container_name="BuiltInScalars", wrap="impl BuiltInScalars", props=["C15"],
+        dict(file=SV, kind="fn", name="all_used", container="BuiltInScalars", container_name="BuiltInScalars", wrap="impl BuiltInScalars", props=["C15", "C16"],
              clauses=[("requires", "no_overflow", "self.used_and_defined.spec_len() + self.used_and_undefined.spec_len() <= usize::MAX"),
                       ("ensures", "counts_compared", "r == (self.used_and_defined.spec_len() + self.used_and_undefined.spec_len() == self.all.spec_len())")]),
     ],
